@@ -64,6 +64,7 @@ SIG_T = "prog-type-never-announced"
 SIG_CAPSVC = "capsvc-never-announced"
 SIG_FLUSHASP = "flush-announces-erased-aspect"
 SIG_FUTASP = "future-aspect-overwrites-current"
+SIG_PIDTD = "pid-tape-delay-never-announced"
 
 
 def parse_case(case):
@@ -493,6 +494,15 @@ def _dec_judge(i, pkt, events, sec, prev):
                     where, "sent" if "pi" in kinds else "missing", "changed" if changed else "unchanged",
                     "pending" if str(typ) in pend else "clear")
             if kinds.count("pi") > 1: return "prog-info-announce: %s PROG_INFO sent twice" % where
+            # "announced after the documented repeat", independent of the code's own bookkeeping: a packet that
+            # changed a field of its own must leave its type bit pending, otherwise no repeat will ever announce it
+            if exp is not None and changed and str(typ) not in sec["SC"]["cyc%d" % cls].split(","):
+                if typ == 1 and sec[own_sec]["pin"] == prev[own_sec]["pin"]:
+                    raise _Quirk(SIG_PIDTD + ": a programme id packet that changes only the tape-delay flag stores it at once "
+                                 "but is never announced (the flag is not counted as a change) (" + where + ")")
+                if fut9:
+                    raise _Quirk(SIG_FUTASP + ": aspect ratio packet of the future class compared with the current programme (" + where + ")")
+                return "prog-info-announce: %s changed its own fields but its type bit is not pending afterwards" % where
             if "asp" in kinds and typ == 9 and not changed and sec["S0"]["asp"] == prev["S0"]["asp"]:
                 return "prog-info-event: %s ASPECT without a change" % where
         want_id = (cls, typ) == (2, 1) and not changed and prev["SN"]["cyc"] == "1"
@@ -570,16 +580,18 @@ def wire_nul(rng, cls, sub, payload, p_nul=0.0):
 class C09(verif.Spec):
     prop = "C09"
     comp = "xds"
-    lean_modules = ["ZvbiModel.Props.C09", "ZvbiModel.Props.C09Sep"]
+    lean_modules = ["ZvbiModel.Props.C09", "ZvbiModel.Props.C09Sep", "ZvbiModel.Props.C09Hist"]
     harness = "xds_harness"
     harness_link_lib = True
     timeout_per_case = 2.0
     partial_note = ("service decoder: complete model `Dec` (every packet type, field and event of xds_decoder) tied to the code by "
-                    "field-by-field correspondence and a field-level oracle; proved for all states / histories: index safety, "
-                    "text fields equal the packet, nothing but the packet's own fields is written (documented flushes apart), "
-                    "announcement on the repeat (epilogue, CGMS-A instance); the history-level statement 'every field equals "
-                    "the last delivered packet of its type' is kept as prog_info_equals_packets_full (def, not proved); "
-                    "three deviations of the current tree are proved as counterexamples and reported as known findings")
+                    "field-by-field correspondence and a field-level oracle; proved by induction over ALL packet histories "
+                    "(Props/C09Hist): every field group the decoder exposes (10 groups per programme, 3 network fields) equals the "
+                    "decoding of the last accepted packet of its (class, type) after the last flush reaching it, unknown if none; the "
+                    "flushes are characterised; every PROG_INFO event carries the stored fields; classes MISC.. are inert; "
+                    "announcement on the repeat is proved for length/elapsed, CGMS-A, title, network name and open for the other "
+                    "groups (prog_info_announced_on_repeat_full, def); one deviation of the current tree (tape-delay flag never "
+                    "announced) is proved as counterexample and reported as known finding")
     assumptions = ["little-endian int layout for the buffer[-1]/buffer[-2] overlay of caption.c (only on the path the "
                    "model reports as out of bounds)",
                    "the caption decoder proper does not touch cc->xds / curr_sp / sub_packet (checked by grep and by "
@@ -589,14 +601,28 @@ class C09(verif.Spec):
                     "harness/xds_harness.c incl. the macro that redirects the xds_decoder call to a printing hook",
                     "lib/xds_util.py reference receiver = my reading of EIA-608 XDS packet framing",
                     "Dec.lean: array extents and caption ids are constants cross-checked by the harness op `extents2`",
-                    "translate/gen_xdsdec.py (four control-flow flags of xds_decoder / flush_prog_info read from src/caption.c; "
+                    "translate/gen_xdsdec.py (five control-flow flags of xds_decoder / flush_prog_info read from src/caption.c; "
                     "cross-checked by the per-field correspondence run)"]
-    open_statements = ["C09Sep.prog_info_equals_packets_full (induction over packet histories; per-call lemmas are proved)"]
+    open_statements = ["C09Hist.prog_info_announced_on_repeat_full (announcement on the repeat for EVERY group over reachable states; "
+                       "proved: length/elapsed and CGMS-A in any state (C09Hist.prog_info_announced_on_repeat), title and network name "
+                       "(C09 round 2), the event payload over all histories; missing: rating (needs the invariant dlsv = 0 unless TV_US), "
+                       "audio, caption services, type list / description lines (array change flag = C-string change), aspect "
+                       "(ASPECT event in front), programme id date (flush in the first call))"]
 
     # ------------------------------------------------------------------ generation
+    # functions the line-coverage report (thorough tier / VERIF_COVERAGE=1) lists besides the anchors: the harness renames
+    # the definition of xds_decoder, flush_prog_info and xds_strfu are its helpers
+    scope_functions = ["xds_decoder_real", "flush_prog_info", "xds_strfu"]
+
     def gen_cases(self, rng, tier):
         N = 4000 if tier == "quick" else 40000
         cases = [["extents"]]
+        # a slice of the service-decoder streams (`q` ops) in the main run as well: they take part in the per-case
+        # correspondence / oracle loop and in the line-coverage measurement (which looks at the first 4000 cases only;
+        # the full set runs in extra_checks)
+        import random as _random
+        _dc = self.gen_dec_cases(_random.Random(rng.randrange(1 << 30)), "quick")
+        cases += _dc[1:41] + _dc[-220:]
         streams = []          # (tag, raw pairs)
 
         def pk(universe="any", n=None, bad_ck=False):
@@ -752,12 +778,16 @@ class C09(verif.Spec):
         self._tags = {}
         for c in frame_cases:
             self._tags["\n".join(c)] = "frame"
-            cases.append(c)
+        sc = []
         for tag, st in streams:
             for mode in ("d", "s"):
                 c = X.ops(mode, st)
                 self._tags["\n".join(c)] = tag + "/" + mode
-                cases.append(c)
+                sc.append(c)
+        # order: a sample of every kind of stream first (every step-th one), then the frames, then the rest - the
+        # line-coverage measurement looks at the first 4000 cases, which should not be frames only (thorough tier)
+        step = max(1, len(sc) // 1500)
+        cases += sc[::step] + frame_cases + [c for i, c in enumerate(sc) if i % step]
         # malformed op lines
         cases.append(["d", "d 80", "d 8080 80", "s zz80", "s 808080", "z 8080", "q", "q 80", "extents2 1", "d 0x80", "extents 1", "s -"])
         return cases
@@ -897,6 +927,15 @@ class C09(verif.Spec):
             for cls, typ in ((0, 3), (1, 3), (0, 4), (1, 0x10), (0, 0x17), (2, 1), (2, 2), (0, 7), (0, 9), (0, 2), (3, 1)):
                 w = wire_nul(rng, cls, typ, X.rand_payload(rng, n))
                 cases.append(X.ops("q", [(X.par(a), X.par(b)) for a, b in w + w]))
+        # a programme id packet twice, then the same date with the tape-delay flag flipped, three times (both classes)
+        for cls in (0, 1):
+            for _ in range(3):
+                d0 = [b6(), 0x40 | rng.randrange(24), 0x40 | rng.randrange(1, 32), 0x40 | rng.randrange(1, 13) | rng.choice([0, 0x10])]
+                d1 = d0[:3] + [d0[3] ^ 0x10]
+                st = []
+                for d, k in ((d0, 2), (d1, 3), (d0, 2)):
+                    st += wire_nul(rng, cls, 1, d) * k
+                cases.append(X.ops("q", [(X.par(a), X.par(b)) for a, b in st]))
         for _ in range(N):
             pool = {}
             def pick(key, mk):
@@ -931,15 +970,28 @@ class C09(verif.Spec):
                     else: mk = lambda: text(1, 32 if rng.random() < 0.3 else 8)
                     data = pick((cls, typ), mk)
                 else:
-                    cls, typ = 3, rng.choice([1, 2, 3, 4])
-                    data = [b6() for _ in range(rng.randrange(1, 8))]
+                    # class MISC: every case label of xds_decoder (lengths right and wrong), types that fall into its
+                    # `default`, the out-of-band channel packet 3/0x40 (refused by xds_separator: types >= 0x18 have no
+                    # buffer there, so that case label is dead code), and the classes the separator has no row for
+                    cls = rng.choice([3, 3, 3, 3, 4, 5, 6])
+                    typ = rng.choice([1, 2, 3, 4, 1, 2, 3, 4, 5, 0x0F, 0x10, 0x17, 0x40, 0x41])
+                    data = [b6() for _ in range(rng.choice([1, 2, 6, 6, rng.randrange(1, 8)]))]
                 w = wire_nul(rng, cls, typ, data, p_nul)
                 if rng.random() < 0.05:
                     w[-1] = (0x0F, (w[-1][1] + 1) % 128)
                 for _ in range(rng.choice([1, 2, 2, 3])):
                     st += w
                     if rng.random() < 0.25: st += X.caption_run(rng)
-            cases.append(X.ops("q", [(X.par(a), X.par(b)) for a, b in st]))
+                if rng.random() < 0.06:
+                    # a continue pair for a buffer nothing was started in, payload, end pair: "can't continue"
+                    c2, t2 = rng.choice([0, 1, 2, 3]), rng.choice([0x0B, 0x0E, 0x16])
+                    st += [(2 * c2 + 2, t2), (b6(), b6()), (0x0F, rng.randrange(128))]
+            raw = [(X.par(a), X.par(b)) for a, b in st]
+            if rng.random() < 0.2:
+                # one transmission error: the packet it hits must vanish without a trace in any field
+                i = rng.randrange(len(raw)); a, b = raw[i]
+                raw[i] = (a ^ 0x80, b) if rng.random() < 0.5 else (a, b ^ 0x80)
+            cases.append(X.ops("q", raw))
         return cases
 
     def dec_flags(self):
@@ -952,7 +1004,7 @@ class C09(verif.Spec):
                 out[m.group(1)] = m.group(2) == "true"
         except OSError:
             pass
-        return out, ([] if len(out) == 4 else ["Generated/XdsDecFlags.lean missing or incomplete"])
+        return out, ([] if len(out) == 5 else ["Generated/XdsDecFlags.lean missing or incomplete"])
 
     def extra_checks(self, ctx):
         bad = self.extra_checks_svc(ctx)
